@@ -329,9 +329,17 @@ async def open_child_case(case: dict[str, Any], sc: Scenario) -> None:
 
     async def child_task(parent: Any) -> None:
         try:
-            async with Context(parent) if case["explicit_parent"] else Context():
-                child_open.set()
-                await release.wait()
+            async with (Context(parent) if case["explicit_parent"] else Context()) as child:
+                if case.get("child_phase") == "teardown":
+                    # the child's block is over at once, but its teardown takes its time: it is not closed before that is done
+                    async def slow_teardown() -> None:
+                        child_open.set()
+                        await release.wait()
+
+                    child.add_teardown_callback(slow_teardown)
+                else:
+                    child_open.set()
+                    await release.wait()
         except BaseException as e:
             outcome["child"] = e
             raise
@@ -452,8 +460,8 @@ def matrix_cells() -> list[dict[str, Any]]:
         if state != "inactive" and op not in ("reenter", "closed"):
             cells.append({"kind": "cell", "state": state, "op": op, "nested": nested, "backend": backend, "ending": ending,
                           "ops": {slot: [op]}, "via": "component"})
-    for nested, explicit, backend, falsy in itertools.product([False, True], [False, True], ["asyncio", "trio"], [False, True]):
-        cells.append({"kind": "open_child", "nested": nested, "explicit_parent": explicit, "backend": backend, "falsy_contexts": falsy})
+    for nested, explicit, backend, falsy, phase in itertools.product([False, True], [False, True], ["asyncio", "trio"], [False, True], ["block", "teardown"]):
+        cells.append({"kind": "open_child", "nested": nested, "explicit_parent": explicit, "backend": backend, "falsy_contexts": falsy, "child_phase": phase})
     for siblings, explicit, early, backend in itertools.product([2, 3], [False, True], [False, True], ["asyncio", "trio"]):
         cells.append({"kind": "equal_siblings", "siblings": siblings, "explicit_parent": explicit, "leave_parent_early": early, "backend": backend})
     for nested, backend in itertools.product([False, True], ["asyncio", "trio"]):
